@@ -64,7 +64,7 @@ type c13Run struct {
 	idx  int64
 	ops  []aop
 	viol bool
-	nForged, nCorrective, nReplies, nRejects, nCycles, nRelayed int
+	nForged, nCorrective, nReplies, nRejects, nCycles, nRelayed, nAltStarts int
 }
 
 func (r *c13Run) history() {
@@ -98,13 +98,15 @@ func (r *c13Run) history() {
 		}
 		return map[string]any{"index": r.idx, "history": ops}
 	}
+	rx := newRx()
 	feed := func(b []byte) {
-		frame, err := s.Parse(b)
+		frame, err := s.Parse(rx.load(b))
 		if err != nil {
 			panic("HARNESS BUG: arp frame rejected: " + err.Error())
 		}
 		h.ProcessPacket(frame)
 		s.Notify(frame)
+		rx.scribble() // the next ReadFrom overwrites the receive buffer
 	}
 	arpFrom := func(t packet.Addr, op uint16, spa, tpa netip.Addr, tha refdec.MAC) []byte {
 		return refdec.Ether(bcastMAC, toMAC(t.MAC), 0x0806, 0, refdec.ARP(refdec.ARPPkt{HType: 1, PType: 0x0800, HLen: 6, PLen: 4, Op: op, SHA: toMAC(t.MAC), SPA: spa, THA: tha, TPA: tpa}))
@@ -121,14 +123,24 @@ func (r *c13Run) history() {
 		pi := c.Guard("C13", func() any { return cs() }, func() {
 			switch o.K {
 			case "start":
-				if _, err := h.StartHunt(tgt); err == nil {
+				a := tgt
+				if o.P == 3 {
+					// the hunted station shows up with another address: StartHunt is keyed (and idempotent) per MAC
+					a.IP = netip.AddrFrom4([4]byte{192, 168, 0, byte(100 + o.T%len(c13Targets))})
+					r.nAltStarts++
+				}
+				if _, err := h.StartHunt(a); err == nil {
 					if _, on := hunted[string(tgt.MAC)]; !on {
 						hunted[string(tgt.MAC)] = ev.t
 						ev.extra = "new"
 					}
 				}
 			case "stop":
-				h.StopHunt(tgt)
+				a := tgt
+				if o.P == 3 {
+					a.IP = netip.AddrFrom4([4]byte{192, 168, 0, byte(100 + o.T%len(c13Targets))})
+				}
+				h.StopHunt(a)
 				if _, on := hunted[string(tgt.MAC)]; on {
 					delete(hunted, string(tgt.MAC))
 					ev.extra = "was-hunted"
@@ -472,6 +484,7 @@ func runC13(c *wk.Ctx) {
 		run := &c13Run{c: c, idx: idx, ops: ops}
 		runBubble(c, idx, func() { run.history() })
 		c.Obs("relayed_requests_mixed_hunt_state", int64(run.nRelayed))
+		c.Obs("starthunt_with_another_ip", int64(run.nAltStarts))
 		if !run.viol && run.nForged > 0 && run.nCorrective > 0 {
 			c.Class(fmt.Sprintf("forged~%d corrective~%d replies=%v rejects=%v", min(run.nForged/4, 6), min(run.nCorrective, 3), run.nReplies > 0, run.nRejects > 0))
 		}
